@@ -47,4 +47,43 @@ def quantizePure (rx : String → String → Bool) (env : Env) (st : Recipe.Stat
   let m' ← Perform.modify (ptableOf tbl) env.model areqs
   pure (m', tbl)
 
+/-- what the caller's calibration-result object looks like after `quantize(cr)`:
+    `deepcopy = true` is the repaired code (materialisation works on a copy), `false` the pinned
+    code, where same-as-input / fixed-range materialisation wrote into the caller's dict.  The
+    internal statistics after materialisation are recomputed by `generateStats`. -/
+def generateStats (rx : String → String → Bool) (env : Env) (st : Recipe.State) (qsvs : Qsvs) : PyM Qsvs := do
+  let mut qs : Qsvs := qsvs
+  for (p : Subgraph × Nat) in env.model.subgraphs.zipIdx do
+    let sg := p.1
+    let ioOps : List (Op × String) :=
+      [({ code := 0, inputs := [], outputs := sg.inputs }, "INPUT"), ({ code := 0, inputs := sg.outputs, outputs := [] }, "OUTPUT")]
+    let allOps : List (Op × Option String × Int) :=
+      (sg.ops.zipIdx.map fun (q : Op × Nat) => (q.1, none, (q.2 : Int))) ++ ioOps.map fun q => (q.1, some q.2, (-1 : Int))
+    for (q : Op × Option String × Int) in allOps do
+      let (op, io, opId) := q
+      let key : Option String ← match io with
+        | some k => pure (some k)
+        | none => match env.model.opcodes[op.code]? with
+          | none => throw .indexError
+          | some code => pure (opNameOfCode code)
+      match key with
+      | none => pure ()
+      | some k =>
+        let scope ← opScope sg op
+        let (alg, cfg) := Recipe.resolve rx st k scope
+        if alg == Tables.algNoQuantize then pure ()
+        else
+          let fn ← match Py.dictGet? Tables.registry alg with
+            | none => throw .valueError
+            | some ops => match Py.dictGet? ops k with
+              | none => throw .valueError
+              | some f => pure f
+          let oi : OpInfo := { sgIdx := p.2, op := op, opName := k, opId := opId, cfg := cfg }
+          let (_, qs') ← materializeOp env sg qs oi alg fn
+          qs := qs'
+  pure qs
+
+def callerQsvAfter (deepcopy : Bool) (rx : String → String → Bool) (env : Env) (st : Recipe.State) (qsvs : Qsvs) : PyM Qsvs :=
+  if deepcopy then pure qsvs else generateStats rx env st qsvs
+
 end Pipeline
